@@ -414,6 +414,7 @@ pub fn run_case(seed: u64, c: &SCase) -> SRun {
         let mut snapshot_equal = false;
         let mut ob = None;
         let mut rb = None;
+        let mut failed_run_equal = true;
         if let (Ok(a1), Ok(a2)) = (&r1, &r2) {
             let v1 = snap_view(&keys, &a1.snapshot().expect("snapshot of restored"));
             let v2 = snap_view(&keys, &a2.snapshot().expect("snapshot of restored"));
@@ -421,6 +422,11 @@ pub fn run_case(seed: u64, c: &SCase) -> SRun {
             restored = Some((v1.facts.clone(), v1.iterations, v1.limits, v1.exec));
             if c.moment < 2 {
                 rb = Some(behaviour(&keys, a1));
+            } else {
+                // after a run stopped by a limit the model does not predict a further
+                // authorize() (budget accounting is C10's model); the original and the restored
+                // authorizer must still behave alike (direct oracle, implementation only)
+                failed_run_equal = behaviour(&keys, a1) == behaviour(&keys, &a) && behaviour(&keys, a2) == behaviour(&keys, &a);
             }
         }
         if c.moment < 2 {
@@ -454,13 +460,13 @@ pub fn run_case(seed: u64, c: &SCase) -> SRun {
                 Err(_) => PolLoad::Other,
             }
         };
-        (view, inputs_match, restore_of(&r1), restore_of(&r2), restored, snapshot_equal, ob, rb, pol, builder_roundtrip)
+        (view, inputs_match, restore_of(&r1), restore_of(&r2), restored, snapshot_equal, ob, rb, pol, builder_roundtrip, failed_run_equal)
     }));
     match res {
         Err(_) => {
             r.panicked = true;
         }
-        Ok((view, inputs_match, r1, r2, restored, snapshot_equal, ob, rb, pol, builder_roundtrip)) => {
+        Ok((view, inputs_match, r1, r2, restored, snapshot_equal, ob, rb, pol, builder_roundtrip, failed_run_equal)) => {
             r.builder_roundtrip = builder_roundtrip;
             r.built = true;
             r.facts = view.facts;
@@ -471,7 +477,7 @@ pub fn run_case(seed: u64, c: &SCase) -> SRun {
             r.restore_b64 = r2;
             r.restored = restored;
             r.snapshot_equal = snapshot_equal;
-            r.behaviour_equal = ob == rb || r.restored.is_none();
+            r.behaviour_equal = (ob == rb && failed_run_equal) || r.restored.is_none();
             r.orig_behaviour = ob;
             r.restored_behaviour = rb;
             r.policies = pol;
